@@ -105,6 +105,23 @@ Create(k0, v) == LET k == N(k0) IN
     /\ res' = None
     /\ IF Has(k) THEN UNCHANGED <<keys, val>> ELSE Put(k, v)
 
+\* create([(k1, v1), (k2, v2)]) : the pairs are taken in order, each only if its key is not existent by then
+\* (so of two pairs whose keys coincide - for lodict: after lower-casing - the first one wins)
+Create2(k1, v1, k2, v2) == LET a == N(k1) b == N(k2) IN
+    LET keys1 == IF Has(a) THEN keys ELSE Append(keys, a)
+        keys2 == IF b \in Range(keys1) THEN keys1 ELSE Append(keys1, b) IN
+    /\ keys' = keys2
+    /\ val' = [x \in Range(keys2) |-> IF x \in Range(keys) THEN val[x] ELSE IF x = a THEN v1 ELSE v2]
+    /\ res' = None
+
+\* reorder(other) with other a PLAIN odict([(k, v)]) (keys as written): a lodict still treats the key case-insensitively
+ReorderPlain(k0, v) == LET k == N(k0) IN
+    /\ keys' = Append(Remove(keys, k), k)
+    /\ val' = [x \in Range(keys) \cup {k} |-> IF x = k THEN v ELSE val[x]]
+    /\ res' = None
+\* reorder(self): "updating with self makes no changes"
+ReorderSelf == UNCHANGED <<keys, val>> /\ res' = None
+
 SetDefault(k0, d) == LET k == N(k0) IN
     IF Has(k) THEN UNCHANGED <<keys, val>> /\ res' = Val(val[k])
     ELSE Put(k, d) /\ res' = Val(d)
@@ -143,8 +160,9 @@ Next ==
                                    \/ PopDefault(k, v) \/ GetDefault(k, v) \/ Reorder(k, v)
     \/ \E k \in Keys : Del(k) \/ Get(k) \/ Contains(k) \/ Pop(k)
     \/ \E k1, k2 \in Keys : Sift2(k1, k2)
-    \/ \E k1, k2 \in Keys, v1, v2 \in Vals : Update2(k1, v1, k2, v2)
-    \/ PopItem \/ Copy \/ Clear
+    \/ \E k1, k2 \in Keys, v1, v2 \in Vals : Update2(k1, v1, k2, v2) \/ Create2(k1, v1, k2, v2)
+    \/ PopItem \/ Copy \/ Clear \/ ReorderSelf
+    \/ \E k \in Keys, v \in Vals : ReorderPlain(k, v)
     \/ \E p \in {0, 1, 2, 5} : Pickle(p)
     \/ \E b \in BOOLEAN : CopyModule(b)
 
